@@ -12,7 +12,7 @@
    this file on every run): [mm_covered_roundtrip] / [mm_covered_roundtrip_structures] — for every covered structure (and every
    covered annotation that is the image of a metamodel type), EVERY closed-valid JSON value parses into a well-typed value that
    serialises back to the input up to null-valued members (LSP.Link: metamodel validity => Python-side validity; LSP.RoundTrip /
-   LSP.HookFrag: Python-side validity => round trip; coverage pinned by [cover_not_shrunk]).  Outside the covered part (22 classes
+   LSP.HookFrag: Python-side validity => round trip; coverage pinned by [cover_not_shrunk]).  Outside the covered part (1 class: WorkspaceSymbolResponse, which reaches the defective symbol-list hook; formerly 22 classes
    that reach a union whose hook is outside the proved fragment, message envelopes at the metamodel level) the round trip is
    validated on every run by the correspondence stream (model = real converter on every generated valid input) and the oracle
    on the real converter's results. *)
